@@ -241,7 +241,22 @@ def rule_z(F):
     return res
 
 
+def rule_k(F):
+    """every resize leaves a free slot: for each call of adjust_capacity, in all small states (count < capacity) in which the
+    guards around the call hold, the installed capacity exceeds the item count (cao/capacity.py, exhaustive evaluation)."""
+    from cao import capacity
+    res = []
+    for f, ln, status, msg in capacity.free_slot_after_resize(F, "collections::handle_table::HandleTable", True):
+        key = "C13/K/%s/free-slot-after-resize" % f.name
+        mk = {"ok": ok, "bad": bad, "undecided": undecided}[status]
+        res.append(mk("C13.K", key, f.loc(ln), msg))
+    if not res:
+        raise AnchorMissing("calls of adjust_capacity")
+    return res
+
+
 RULES = [
+    Rule("C13.K", rule_k, 2, "every resize leaves a free slot"),
     Rule("C13.C", rule_c, 3, "slot/count pairing in HandleTable"),
     Rule("C13.G", rule_g, 2, "load-factor guard on every insertion path"),
     Rule("C13.H", rule_h, 1, "one home-slot function"),
